@@ -151,7 +151,7 @@ def redc_n_cases(ctx, tier):
     # zero bits, sparse, all ones, B^n - c; the product q*m is formed modulo B^rn - 1 and unwrapped with a borrow
     T = getattr(ctx, 'thr', None) or gen_tables.main()[0]
     rn0 = max(9, T.get('REDC_1_TO_REDC_N_THRESHOLD') or T.get('REDC_2_TO_REDC_N_THRESHOLD') or 100)
-    for _ in range(320 if quick else 5000):
+    for _ in range(320 if quick else 2000):
         n = rng.choice([9, 16, 33, rn0, rn0 + 1, rn0 + 28, 127, 128, 129, 200, 256, 257]) if rng.random() < 0.5 else rng.randrange(9, 270)
         shape = rng.choice(['runs', 'runs', 'runs', 'sparse', 'ones', 'uniform', 'pow2m1'])
         k = rng.random()
